@@ -356,6 +356,9 @@ def run(ctx):
     from rules import c05_offline
     ctx.rule("C05.offline", "symbolic: every bus injection of a model with a status vanishes for u = 0 (internal algebraic variables eliminated)", 60)
     c05_offline.run_rule(ctx, models)
+    from rules import c05_bindings
+    ctx.rule("C05.bindings", "object identity on the elaborated models: discrete components refer to the registered objects of their model", 50)
+    c05_bindings.run_rule(ctx, models)
     ctx.rule("C05.continuity", "symbolic: equations switched on dae_t give the same injection before and after the hand-over", 2)
     rule_mode_continuity(ctx, models)
     if ctx.tier == "thorough":
